@@ -24,6 +24,9 @@ def check(chk):
     r193(chk, m)
     r194(chk, m)
     r195(chk, m)
+    from . import shared, c04
+    shared.sign_rules(chk, m, 'R19.6')
+    c04.chain_rules(chk, m, 'R19.7')
     chk.decline('evaluation of concrete operands (macro-produced numbers, lengths in mixed units); expressions beyond the size bound')
 
 
